@@ -177,6 +177,22 @@ def correspond(ctx):
             if rng.random() < 0.12 and not omit_n:
                 ik = [q for q in kw if isinstance(kw[q], int) and not isinstance(kw[q], bool)]
                 if ik: kw[rng.choice(ik)] = rng.choice([-1, 0, 9, 17]); corrupted = True
+            # ... or cut one or two elements off the end of a vector argument (its footprint then no longer fits: the call must be refused,
+            # for increments of either sign)
+            if not corrupted and not omit_n and rng.random() < 0.2 and name not in ('gemm', 'syrk', 'herk', 'syr2k', 'her2k', 'symm', 'hemm', 'trmm', 'trsm'):
+                vq = [q for q in ('x', 'y') if q in mats]
+                nl_ = kw.get('n', 0); ml_ = kw.get('m', nl_); tr0 = kw.get('trans', 'N')
+                vl_ = {'x': nl_, 'y': nl_}
+                if name in ('gemv', 'gbmv'): vl_ = {'x': (nl_ if tr0 == 'N' else ml_), 'y': (ml_ if tr0 == 'N' else nl_)}
+                if name in ('ger', 'geru'): vl_ = {'x': ml_, 'y': nl_}
+                if vq and nl_ > 0 and ml_ > 0:
+                    q = rng.choice(vq)
+                    negq = [t for t in vq if kw.get('inc' + t, kw.get('inc', 1)) < 0 and vl_[t] >= 2]
+                    if negq and rng.random() < 0.7: q = rng.choice(negq)          # (with one element the sign of the increment does not matter)
+                    need = kw.get('offset' + q, kw.get('offset', 0)) + (vl_[q] - 1) * abs(kw.get('inc' + q, kw.get('inc', 1))) + 1
+                    newlen = max(0, need - rng.choice([1, 1, 2]))
+                    if vl_[q] > 0 and newlen < need:
+                        mats[q] = matrix(list(mats[q])[:newlen], (newlen, 1), mats[q].typecode); corrupted = True
             # the protocol line: everything the generated prefix needs
             env = {}
             for q, M in mats.items():
@@ -196,6 +212,21 @@ def correspond(ctx):
                 if omit_n and kw.get('n') == ndef: del callkw['n']
                 res = getattr(blas, name)(**callkw)
                 o = 'ok ' + ' '.join('%s=%s' % (q, btok(mats[q]) if q in mats else '-') for q in ('x', 'y', 'A', 'B', 'C'))
+                # soundness, independently of the translated checks: an accepted call addresses its vector arguments inside their buffers
+                # (off + (len - 1)*|inc| + 1 <= size, for the vector length the routine uses)
+                nloc = kw.get('n', 0); mloc = kw.get('m', nloc)
+                tr_ = kw.get('trans', 'N')
+                vlen = {'x': nloc, 'y': nloc}
+                if name in ('gemv', 'gbmv'): vlen = {'x': (nloc if tr_ == 'N' else mloc), 'y': (mloc if tr_ == 'N' else nloc)}
+                if name in ('ger', 'geru'): vlen = {'x': mloc, 'y': nloc}
+                noop = (isinstance(nloc, int) and nloc <= 0) or (name in ('gemv', 'gbmv', 'ger', 'geru') and isinstance(mloc, int) and mloc <= 0)
+                for q_ in ('x', 'y'):
+                    if noop: break          # an empty operation returns before looking at its arguments (nothing is addressed)
+                    if q_ not in mats or name in ('gemm', 'syrk', 'herk', 'syr2k', 'her2k', 'symm', 'hemm', 'trmm', 'trsm'): continue
+                    inc_ = kw.get('inc' + q_, kw.get('inc', 1)); off_ = kw.get('offset' + q_, kw.get('offset', 0)); ln_ = vlen[q_]
+                    if isinstance(ln_, int) and ln_ > 0 and isinstance(inc_, int) and inc_ != 0 and off_ >= 0 and off_ + (ln_ - 1) * abs(inc_) + 1 > len(mats[q_]):
+                        ctx.violation('c17:inconsistent-call-accepted:' + name, 'blas.%s accepted a call whose vector %s (offset %d, increment %d, %d elements) does not fit in its buffer of %d elements'
+                                      % (name, q_, off_, inc_, ln_, len(mats[q_])), {'line': line, 'kw': {k: (v if not isinstance(v, complex) else [v.real, v.imag]) for k, v in kw.items()}})
                 if name in ('dot', 'dotu', 'asum', 'iamax') and res is not None: o += ' val=' + ntok(res if not isinstance(res, int) else res)
                 if name == 'nrm2' and res is not None: o += ' val2~%r' % (res * res)
             except Exception as e:
